@@ -120,7 +120,8 @@ def run(tier, seed):
     th = tier == 'thorough'
     rnd = random.Random(seed)
     fams = [('composite', fam.fam_composite()[seed % 5::5] if not th else fam.fam_composite()[::3]),
-            ('orders', fam.fam_orders()[seed % 8::8] if not th else fam.fam_orders()[::3]),
+            # (books of at most two orders here: every configuration is replayed under five renamings and several permutations)
+            ('orders', [c for c in fam.fam_orders() if len(c['assets'][0]['orders']) <= 2][seed % 8::8] if not th else fam.fam_orders()[::3]),
             ('structured', fam.fam_structured()[::3] if not th else fam.fam_structured()),
             # assets with different discount rates side by side: what one asset leaves on the shared grid must not reach the next, in any order
             ('discount', [c for c in fam.fam_discount() if th or len({a.get('wacc', -1) for a in c['assets']}) > 1])]
